@@ -58,6 +58,11 @@ type Script struct {
 	PauseBefore int           `json:"pause_before"` // wait for a tracer before this op (-1: never)
 	PauseAfter  int           `json:"pause_after"`  // park after this op's END (-1: never)
 	StopBefore  int           `json:"stop_before"`  // park before this op's BEGIN (-1: never)
+	// KillInOp >= 0: when the rotation performed by that op begins (hook
+	// migrate.beforeLock), the victim starts a watcher that sends SIGKILL to the
+	// process KillDelayUs after the statistics file started to grow.
+	KillInOp    int `json:"kill_in_op"`
+	KillDelayUs int `json:"kill_delay_us"`
 }
 
 func (s *Script) clone() *Script {
